@@ -110,7 +110,7 @@ func wfBtc(d Dep) (uint8, bool) {
 		return 0, false
 	}
 	script, err := hex.DecodeString(d.Data)
-	if err != nil || len(script) < 2 {
+	if err != nil || !canonicalBtc(script) {
 		return 0, false
 	}
 	m := btcData.FindStringSubmatch(string(script[2:]))
@@ -337,6 +337,7 @@ func poisonsEvm(r *vgen.Rng, kind string) []Dep {
 		Dep{Kind: "rawlog", Dest: base.Dest, Data: hex.EncodeToString(r.Bytes(vgen.Pick(r, []int{0, 1, 31, 32, 95, 160})))},
 		Dep{Kind: "rawlog", Dest: base.Dest, Data: hex.EncodeToString(cat(make([]byte, 96), pad32(hostileWords[r.Intn(len(hostileWords))]), make([]byte, 64)))},
 	)
+	out = append(out, sample(r, moreEvm(r, kind, base), 3)...)
 	return out
 }
 
@@ -363,6 +364,7 @@ func poisonsSub(r *vgen.Rng) []Dep {
 		Dep{Kind: "subfield", Dest: base.Dest, Data: base.Data},
 		Dep{Kind: "subother", Dest: base.Dest, Data: ""},
 	)
+	out = append(out, sample(r, moreSub(r, base), 8)...)
 	return out
 }
 
@@ -385,13 +387,31 @@ func poisonsBtc(r *vgen.Rng) []Dep {
 	mk(btcScript(addr + "_18446744073709551616"))
 	mk(btcScript("_"))
 	mk(btcScript("nothex_2"))
+	// scripts that are not OP_RETURN + one direct push (scripts.go): a fixed handful and a sample here
+	// (the whole catalogue in the thorough tier; in the quick tier the whole catalogue goes through
+	// the packed blocks of btcSweepCases)
+	for _, s := range []string{"6a51", "6a4c", "6a4d0000", "6a4e", "6aff", "6a4f", "6a60", "6a6a", "6a4c00", "6a61" + btcScript(addr + "_2")[2:], "6a51" + btcScript(addr + "_2")[2:]} {
+		mk(s)
+	}
+	shapes := btcScriptDeps(r, btcScriptShapes(r))
+	if !thoroughTier {
+		r.Shuffle(len(shapes), func(i, j int) { shapes[i], shapes[j] = shapes[j], shapes[i] })
+		shapes = shapes[:8]
+	}
+	out = append(out, shapes...)
 	out = append(out,
 		Dep{Kind: "btcnopay", Dest: 2, Data: btcScript(addr + "_2")},
+		Dep{Kind: "btcnopay", Dest: 2, Data: "6a51"},
+		Dep{Kind: "btcnopay", Dest: 2, Data: "6a4d"},
+		Dep{Kind: "btcnopay", Dest: 2, Data: "6aff00"},
 		Dep{Kind: "btclowfee", Dest: 2, Data: btcScript(addr + "_2")},
 		Dep{Kind: "btcnoopret", Dest: 2, Data: ""},
 	)
 	return out
 }
+
+// thoroughTier: set by gen (the catalogue functions have no tier argument).
+var thoroughTier bool
 
 func poisons(r *vgen.Rng, chain string) []Dep {
 	switch chain {
@@ -415,6 +435,17 @@ var paths = []struct{ name, chain string }{
 
 func gen(r *vgen.Rng, tier string) []Case {
 	var out []Case
+	thoroughTier = tier == "thorough"
+	// 0. BTC: every OP_RETURN script shape and every opcode after OP_RETURN, packed into blocks among
+	// healthy deposits (scripts.go)
+	{
+		per := 10
+		if thoroughTier {
+			per = 3
+		}
+		all := append(btcScriptDeps(r, btcScriptShapes(r)), btcScriptDeps(r, btcOpcodeSweep(r))...)
+		out = append(out, btcSweepCases(r, all, per)...)
+	}
 	for _, p := range paths {
 		retry := p.name == "EvmRetryV1" || p.name == "SubRetry"
 		// 1. every poison at every position among three healthy neighbours
@@ -492,7 +523,7 @@ func gen(r *vgen.Rng, tier string) []Case {
 					}
 					if p.name == "EvmRetryV1" {
 						d.Status = vgen.Pick(r, []string{"", "", "", "pending", "failed", "executed", "storeerr"})
-						if r.Chance(1, 20) {
+						if r.Chance(1, 20) && d.Kind != "badlog" {
 							d.Kind = "otheraddr"
 						}
 					}
